@@ -3598,7 +3598,7 @@ static Token *global_variable(Token *tok, Type *basety, VarAttr *attr) {
     // caught by the assembler.
     if (equal(tok, "=") && scope->next == NULL)
       for (Obj *prev = globals; prev; prev = prev->next)
-        if (!prev->is_function && prev->init_data && !prev->is_static == !attr->is_static &&
+        if (!prev->is_function && prev->init_data && !prev->enclosing_fn &&
             ty->name->len == strlen(prev->name) && !strncmp(ty->name->loc, prev->name, ty->name->len))
           error_tok(ty->name, "redefinition of '%s'", prev->name);
 
